@@ -281,6 +281,10 @@ func (p *proxy) gatedCopy(dst io.Writer, src io.Reader) {
 		p.gate.RLock()
 		p.gate.RUnlock()
 		n, err := src.Read(buf)
+		// (a Read that was already waiting when the hold began returns with whatever comes — data or the end of the stream: while
+		// on hold none of it is passed on)
+		p.gate.RLock()
+		p.gate.RUnlock()
 		if n > 0 {
 			if _, werr := dst.Write(buf[:n]); werr != nil {
 				return
